@@ -58,6 +58,18 @@ BASES = [
         ("cnt", "cnt :: () -> usize { arr : [@N]i32; arr.len }"),
         ("pick", "pick :: (e: @E) -> i64 { switch v in e { .A => i64.(v[2]), .B => -1 } }"),
     ], "io.pr(i64.(@cnt())); io.pr(@pick(@E.A.(u8.[4, 5, 6]))); io.pr(@pick(@E.B));", "3 6 -1 "),
+    Base("annotated-consts-with-type-alias", [
+        ("Count", "Count :: i64;"),
+        ("limit", "limit : @Count : 40;"),
+        ("twice", "twice :: comptime { @limit * 2 };"),
+        ("get", "get :: () -> @Count { @limit + @twice }"),
+    ], "io.pr(@get());", "120 "),
+    Base("alias-chain-and-annotated-struct", [
+        ("A1", "A1 :: @A2;"),
+        ("A2", "A2 :: u8;"),
+        ("P", "P :: struct { x: @A1, y: @A1 };"),
+        ("origin", "origin : @P : comptime { @P.{ x = 250, y = 10 } };"),
+    ], "io.pr(i64.(@origin.x + @origin.y));", "4 "),
     Base("distinct-and-lambda-table", [
         ("Id", "Id :: distinct i32;"),
         ("mkid", "mkid :: (v: i32) -> @Id { @Id.(v + @OFF) }"),
